@@ -494,17 +494,6 @@ def goAwayGrants (s : S18) (c last mc : Nat) : List Nat :=
   ((s.w c).opn.map (goAwayOwes s c last mc)).flatten.filterMap
     (fun o => match o with | .retry r => some r | _ => none)
 
-def S18.rsUpd (s : S18) : Ev → Nat → RSt
-  | .req r b => setAt s.rs r { body := b }
-  | .cancel r => setAt s.rs r { s.rs r with canceled := true }
-  | .pick r _ _ => setAt s.rs r { s.rs r with picks := (s.rs r).picks + 1 }
-  | .hdr c _ r _ => setAt s.rs r { s.rs r with conns := c :: (s.rs r).conns }
-  | .done r _ => setAt s.rs r { s.rs r with returned := true }
-  | .goaway c last code =>
-    bump s.rs (goAwayGrants s c last (s.merged c code) ++ (s.w c).pend)
-  | .sclose c => bump s.rs (s.w c).pend
-  | _ => s.rs
-
 def S18.upd (s : S18) (e : Ev) : S18 :=
   { strict := s.strict
     w := fun c => (s.w c).upd c e
@@ -514,7 +503,17 @@ def S18.upd (s : S18) (e : Ev) : S18 :=
     gaCode := match e with
       | .goaway c _ code => setAt s.gaCode c (s.merged c code)
       | _ => s.gaCode
-    rs := s.rsUpd e
+    -- (kept inside the structure literal so that each update is computed once, not per lookup)
+    rs := match e with
+      | .req r b => setAt s.rs r { s.rs r with body := b }
+      | .cancel r => setAt s.rs r { s.rs r with canceled := true }
+      | .pick r _ _ => setAt s.rs r { s.rs r with picks := (s.rs r).picks + 1 }
+      | .hdr c _ r _ => setAt s.rs r { s.rs r with conns := c :: (s.rs r).conns }
+      | .done r _ => setAt s.rs r { s.rs r with returned := true }
+      | .goaway c last code =>
+        bump s.rs (goAwayGrants s c last (s.merged c code) ++ (s.w c).pend)
+      | .sclose c => bump s.rs (s.w c).pend
+      | _ => s.rs
     owe := s.oweUpd e
     keep := match e with
       | .goaway c last code =>
